@@ -762,7 +762,11 @@ impl Interp {
 					return Ok(StepOut::Faulted(s))
 				}
 			},
-			Op::Reopen => {
+			Op::Reopen | Op::ReopenAfterError => {
+				if matches!(op, Op::ReopenAfterError) {
+					self.db().verif_store_err("injected background error before drop");
+					self.labels.insert("drop-in-background-error-state");
+				}
 				if !self.stages.queued.is_empty() {
 					self.labels.insert("reopen-with-queue");
 				}
@@ -772,15 +776,17 @@ impl Interp {
 				if self.pipeline().3 > 4 {
 					self.labels.insert("drop-with-more-than-4-dirty-logs");
 				}
+				let synced_before = self.stages.synced;
 				self.close();
 				if let StepOut::Faulted(s) = self.open()? {
 					return Ok(StepOut::Faulted(s))
 				}
-				self.stages = Stages {
-					cleaned: self.committed,
-					synced: self.committed,
-					logged: self.committed,
-					..Default::default()
+				self.stages = if matches!(op, Op::ReopenAfterError) {
+					// in the error state the shutdown sequence processes nothing further: only
+					// what had been synced is certain (callers use this op as the last one)
+					Stages { cleaned: synced_before, synced: synced_before, logged: synced_before, ..Default::default() }
+				} else {
+					Stages { cleaned: self.committed, synced: self.committed, logged: self.committed, ..Default::default() }
 				};
 				self.labels.insert("reopen");
 			},
